@@ -106,6 +106,7 @@ Section Sim.
       do_dispatch B sb ab nb b c h = (b', c', res) /\ R a' b' /\ r_fault res = false.
   Proof.
     intros HR. unfold do_dispatch.
+    destruct (cgone c); [do 4 eexists; eauto|].
     destruct (cdg c).
     - destruct (dg_next c) as [c1 nx].
       destruct (cact c1); [do 4 eexists; eauto|].
@@ -131,7 +132,7 @@ Section Sim.
 
   Lemma do_push_nofault c pay : snd (do_push c pay) = false.
   Proof.
-    unfold do_push. destruct (push_blocked c); [reflexivity|].
+    unfold do_push. destruct (cgone c); [reflexivity|]. destruct (push_blocked c); [reflexivity|].
     destruct (negb (cact c) && negb (cidl c =? 0)); [|reflexivity].
     pose proof (id2buf_no_fault (ccid c) (cidl c)) as Hn.
     destruct (id2buf (ccid c) (cidl c)) as [[bs u]| |]; try reflexivity. congruence.
@@ -139,10 +140,23 @@ Section Sim.
 
   Lemma do_finish_nofault c : snd (do_finish c) = false.
   Proof.
-    unfold do_finish. destruct (push_blocked c); [reflexivity|].
+    unfold do_finish. destruct (cgone c); [reflexivity|]. destruct (push_blocked c); [reflexivity|].
     destruct (negb (cact c) && negb (cidl c =? 0)); [|reflexivity].
     pose proof (id2buf_no_fault (ccid c) (cidl c)) as Hn.
     destruct (id2buf (ccid c) (cidl c)) as [[bs u]| |]; try reflexivity. congruence.
+  Qed.
+
+  Lemma await_push_finish_nofault c tag bump pay : r_fault (snd (await_push_finish c tag bump pay)) = false.
+  Proof.
+    unfold await_push_finish.
+    destruct (do_await c tag) as [c1 ra].
+    set (c1' := if bump then set_ntag c1 (S (cntag c1)) else c1).
+    assert (Hp : exists c2 p1, (if is_nil pay then (c1', 0%Z, false) else do_push c1' pay) = (c2, p1, false)).
+    { destruct (is_nil pay); [eauto|]. pose proof (do_push_nofault c1' pay) as Hn.
+      destruct (do_push c1' pay) as [[c2 p1] f]. cbn in Hn. subst f. eauto. }
+    destruct Hp as (c2 & p1 & ->).
+    pose proof (do_finish_nofault c2) as Hn. destruct (do_finish c2) as [[[c3 p2] ws] f]. cbn in Hn. subst f.
+    reflexivity.
   Qed.
 
   Lemma cstep_sim a b c o : R a b ->
@@ -151,7 +165,7 @@ Section Sim.
       cstep B sb ab nb (b, c) o = ((b', c'), res) /\ R a' b' /\ r_fault res = false.
   Proof.
     intros HR. unfold cstep.
-    destruct o as [m|acts code| |k p|pay|pay| | | ].
+    destruct o as [m|acts code| |k p|pay|pay| | | |pay| | | |msg|rk rh|t|color].
     - do 4 eexists; eauto.
     - destruct (cclosed c); [do 4 eexists; eauto|].
       destruct (do_dispatch_sim a b c (Some (acts, code)) HR) as (a' & b' & c' & res & -> & -> & HR' & Hf).
@@ -162,16 +176,10 @@ Section Sim.
     - destruct (prim_sim a b c (OHReply k p) p HR eq_refl) as (a' & b' & ob & -> & -> & HR' & Hf).
       do 4 eexists; eauto.
     - destruct (cclosed c); [do 4 eexists; eauto|].
-      destruct (do_await c) as [c1 ra].
-      set (c1' := set_ntag c1 (S (cntag c1))).
-      assert (Hp : exists c2 p1, (if is_nil pay then (c1', 0%Z, false) else do_push c1' pay) = (c2, p1, false)).
-      { destruct (is_nil pay); [eauto|]. pose proof (do_push_nofault c1' pay) as Hn.
-        destruct (do_push c1' pay) as [[c2 p1] f]. cbn in Hn. subst f. eauto. }
-      destruct Hp as (c2 & p1 & ->).
-      pose proof (do_finish_nofault c2) as Hn. destruct (do_finish c2) as [[[c3 p2] ws] f]. cbn in Hn. subst f.
-      do 4 eexists; eauto.
+      pose proof (await_push_finish_nofault c (S (cntag c)) true pay) as Hn.
+      destruct (await_push_finish c (S (cntag c)) true pay) as [c3 res]. do 4 eexists; eauto.
     - destruct (cclosed c); [do 4 eexists; eauto|].
-      destruct (do_await c) as [c1 ra].
+      destruct (do_await c (S (cntag c))) as [c1 ra].
       pose proof (do_push_nofault (set_ntag c1 (S (cntag c1))) pay) as Hn.
       destruct (do_push (set_ntag c1 (S (cntag c1))) pay) as [[c2 p1] f]. cbn in Hn. subst f.
       do 4 eexists; eauto.
@@ -181,10 +189,30 @@ Section Sim.
     - destruct (cclosed c); [do 4 eexists; eauto|].
       destruct (do_sync c) as [[c1 z] wc]. do 4 eexists; eauto.
     - destruct (cclosed c); [do 4 eexists; eauto|].
+      destruct (0 <? crefs c); [do 4 eexists; eauto|].
       destruct (close_conn c) as [c0 wc].
       destruct (chas c); [|do 4 eexists; eauto].
       destruct (prim_sim a b c0 OUnref None HR eq_refl) as (a' & b' & ob & -> & -> & HR' & Hf).
       do 4 eexists; eauto.
+    - destruct (cclosed c); [do 4 eexists; eauto|].
+      pose proof (await_push_finish_nofault c 0 false pay) as Hn.
+      destruct (await_push_finish c 0 false pay) as [c3 res]. do 4 eexists; eauto.
+    - destruct (cclosed c); do 4 eexists; eauto.
+    - destruct (cclosed c); do 4 eexists; eauto.
+    - destruct (cclosed c); do 4 eexists; eauto.
+    - destruct (cclosed c); [do 4 eexists; eauto|].
+      pose proof (do_push_nofault c msg) as Hn. destruct (do_push c msg) as [[c1 p1] f1]. cbn in Hn. subst f1.
+      destruct (p1 <? 0)%Z; [do 4 eexists; eauto|].
+      pose proof (do_finish_nofault c1) as Hn. destruct (do_finish c1) as [[[c2 p2] ws] f]. cbn in Hn. subst f.
+      do 4 eexists; eauto.
+    - destruct (cclosed c); [do 4 eexists; eauto|].
+      destruct (cact c && negb (is_assign_null rk rh)); [do 4 eexists; eauto|].
+      destruct (is_reopen c rk rh); [destruct rh; do 4 eexists; eauto|].
+      destruct (chas c); [|do 4 eexists; eauto].
+      destruct (prim_sim a b (hup_conn c) OUnref None HR eq_refl) as (a' & b' & ob & -> & -> & HR' & Hf).
+      do 4 eexists; eauto.
+    - destruct (cclosed c); do 4 eexists; eauto.
+    - destruct (cclosed c); do 4 eexists; eauto.
   Qed.
 
   (* histories: same results, same connection state, related machines after every operation *)
